@@ -1408,6 +1408,19 @@ func ndMarItems(msgs []*rwp.InboundMessage) [][]byte {
 	return items
 }
 
+// a text state whose ASCII line is exactly k bytes long (without the line feed)
+func ndTextMsgWithLineLen(id uint32, k int) *rwp.InboundMessage {
+	mk := func(t int) *rwp.InboundMessage {
+		return &rwp.InboundMessage{States: []*rwp.HWCState{{HWCIDs: []uint32{id}, HWCText: &rwp.HWCText{Title: strings.Repeat("x", t), Formatting: 7}}}}
+	}
+	base := len(rawpanellib.InboundMessagesToRawPanelASCIIstrings([]*rwp.InboundMessage{mk(1)})[0])
+	t := k - base + 1
+	if t < 1 {
+		t = 1
+	}
+	return mk(t)
+}
+
 func genC09(r *Rng, n int, tier string) {
 	recs := []ndRec{}
 	// NON-EMPTY lists that convert to zero ASCII lines (one such message, several, all kinds), empty lists, and lists in
@@ -1462,6 +1475,28 @@ func genC09(r *Rng, n int, tier string) {
 		}
 		ptoks = append(ptoks, fmt.Sprintf("p%d:3000", total), ndS(400)) // stray bytes written after the last line are still seen
 		recs = append(recs, ndRecOf("net.c09", []string{"mode=" + mode, "end=150", ndVoc(voc)}, append([][]string{ptoks}, subSecs...)...))
+	}
+	// ASCII submissions whose lines end exactly on / one short of / one past the boundaries a buffering writer would have
+	// (4096, 8192, 65536 bytes): a single such line, and two lines whose running length incl. the first line feed lands there
+	for bi, B := range []int{4096, 8192, 65536} {
+		toks := []string{"sub", "h"}
+		total := 7
+		id := uint32(5000 + 10*bi)
+		lists := [][]*rwp.InboundMessage{
+			{ndTextMsgWithLineLen(id, B-1)},
+			{ndTextMsgWithLineLen(id+1, B)},
+			{ndTextMsgWithLineLen(id+2, B+1)},
+			{ndTextMsgWithLineLen(id+3, 1000), ndTextMsgWithLineLen(id+4, B-1001), ndInMsg(r, id+5, 1)},
+			{ndTextMsgWithLineLen(id+6, 1000), ndTextMsgWithLineLen(id+7, B-1002), ndInMsg(r, id+8, 0)},
+			{ndTextMsgWithLineLen(id+6, 999), ndTextMsgWithLineLen(id+7, B-1000), ndInMsg(r, id+9, 0)},
+		}
+		for _, l := range lists {
+			total += ndWireLen("a", l)
+			toks = append(toks, "m"+ndItems(ndMarItems(l)))
+		}
+		ptoks := ndHandshake("a")
+		ptoks = append(ptoks, fmt.Sprintf("p%d:5000", total), ndS(300))
+		recs = append(recs, ndRecOf("net.c09", []string{"mode=a", "end=150", ndVoc(nil)}, ptoks, toks))
 	}
 	nscripts := 24
 	if tier == "thorough" {
